@@ -2,9 +2,11 @@ package main
 
 func init() {
 	register(&propDef{ID: "C13", Title: "The IPs a plugin configures are exactly the IPs IPAM allocated",
-		Explanation: "Decides writer/reader agreement of the three hops: (R1) one Go type at both ends (CommonCniArgs.IPInfos vs the Unmarshal target of cni/ipam.Allocate); (R2) key agreement: JSON tag = IPInfosKey = key the plugin looks up; CniArgs.Common tag = the daemon's anonymous-struct tag; annotation key written by Bind = key read by the daemon; Bind's payload is json(allocateIP result); (R3) IPInfo field types cannot encode the separators, BuildCNIArgs/ParseCNIArgs agree on separators and split key/value with limit 2; (R4) every NetworkInfo created by resolveNetworks passes the loop copying every common.* key, IPInfoToResult takes address, mask and gateway from the same IPInfo, every decoded IPInfo becomes a result; (R5) allocateIP assigns cniArgs.Common.IPInfos a list built from the lookup entries and independent of the value decoded from the pod's existing annotation. (R7) gateway/VLAN/mask of a reported ip come from the pool the ip's table entry points to, created entries take pool and ip from the same unallocated entry; (R9) the allocator's and the lookup's per-range pickers both exclude ips already picked for an earlier range of the same request (k ranges, k distinct ips, also when ranges overlap). Does not decide end-to-end value equality for all configurations (a round trip over runtime values). (R10) getPod has no success return that does not pass the (polled) Pods().Get: the annotation an ADD uses is read in that request. (R11) in cni/ipam.Allocate, from the `ipinfos != \"\"` edge every path reaches the decode; neither a return nor ipam.ExecAdd is reachable without it. (R9, extended) with the matching form in use, every write of an answer slot uses the value of the ip -> range map as index (no fast path past the map). (R12) within an iteration of CmdAdd / CmdDel no path reaches the delegate call without BuildCNIArgs (shared helpers resolved to their call in the function). (R13) every store to NetworkInfo.Args stores a map that does not come from a package-level variable.",
+		Explanation: "Decides writer/reader agreement of the three hops: (R1) one Go type at both ends (CommonCniArgs.IPInfos vs the Unmarshal target of cni/ipam.Allocate); (R2) key agreement: JSON tag = IPInfosKey = key the plugin looks up; CniArgs.Common tag = the daemon's anonymous-struct tag; annotation key written by Bind = key read by the daemon; Bind's payload is json(allocateIP result); (R3) IPInfo field types cannot encode the separators, BuildCNIArgs/ParseCNIArgs agree on separators and split key/value with limit 2; (R4) every NetworkInfo created by resolveNetworks passes the loop copying every common.* key, IPInfoToResult takes address, mask and gateway from the same IPInfo, every decoded IPInfo becomes a result; (R5) allocateIP assigns cniArgs.Common.IPInfos a list built from the lookup entries and independent of the value decoded from the pod's existing annotation. (R7) gateway/VLAN/mask of a reported ip come from the pool the ip's table entry points to, created entries take pool and ip from the same unallocated entry; (R9) the allocator's and the lookup's per-range pickers both exclude ips already picked for an earlier range of the same request (k ranges, k distinct ips, also when ranges overlap). Does not decide end-to-end value equality for all configurations (a round trip over runtime values). (R10) getPod has no success return that does not pass the (polled) Pods().Get: the annotation an ADD uses is read in that request. (R11) in cni/ipam.Allocate, from the `ipinfos != \"\"` edge every path reaches the decode; neither a return nor ipam.ExecAdd is reachable without it. (R9, extended) with the matching form in use, every write of an answer slot uses the value of the ip -> range map as index (no fast path past the map). (R12) within an iteration of CmdAdd / CmdDel no path reaches the delegate call without BuildCNIArgs (shared helpers resolved to their call in the function). (R13) every store to NetworkInfo.Args stores a map that does not come from a package-level variable. (R14 = C05.R8) store-client errors, AlreadyExists included, are returned: an ip reaches the plugin only after its object was stored for the pod.",
 		Assumptions: []string{"JSON encoding of net.IP / IPNet / uint16 contains neither ';' nor an unquoted '=' before the first one"},
 		Run: func(c *Ctx) {
+			c.Rule("C13.R14", "an ip reaches the plugin only after it was stored for the pod: store-client errors (AlreadyExists included) are returned", 2)
+			ruleStoreErrorsPropagate(c, "C13.R14")
 			c.Rule("C13.R1", "writer/reader agreement of the ipinfos path", 6)
 			ruleArgsCodec(c, "C13.R1")
 			c.Rule("C13.R7", "gateway/VLAN come from the pool whose ranges contain the ip, also after a reload", 4)
